@@ -21,10 +21,10 @@ Local Open Scope N_scope.
 (* ================================================================== *)
 
 (* stored keyword k matches query text t: empty keywords never match *)
-Definition kw_ok (t k : text) : bool := match k with [] => false | _ => substring k t end.
+Definition kw_ok (t k : text) : bool := match k with [] => false | _ => kw_found k t end.
 
 Lemma kw_ok_nil k : kw_ok [] k = false.
-Proof. destruct k; reflexivity. Qed.
+Proof. destruct k as [|c k]; [reflexivity|]. unfold kw_ok. apply AcProof.kw_found_nil_r. discriminate. Qed.
 
 (* the text a pattern container matches its keywords against: a nil value gives no text at all
    (the container returns its wildcard set without consulting the automata), which is the same as
@@ -38,7 +38,7 @@ Definition ac_result (wc : bitmap) (inc exc : list (text * bitmap)) (t : text) :
 Lemma ac_matched_nil m : ac_matched [] m = [].
 Proof.
   unfold ac_matched. induction m as [|[k b] m IH]; cbn [flat_map fst snd]; [reflexivity|].
-  rewrite IH. destruct k; reflexivity.
+  rewrite IH. destruct k as [|c k]; [reflexivity|]. rewrite (AcProof.kw_found_nil_r (c :: k)) by discriminate. reflexivity.
 Qed.
 
 Lemma rc_retrieve_ac_eq wc inc exc v :
@@ -53,7 +53,7 @@ Lemma existsb_ac_matched x t m :
 Proof.
   unfold ac_matched. induction m as [|[k b] m IH]; cbn [flat_map existsb fst snd]; [reflexivity|].
   rewrite existsb_app, IH. unfold kw_ok. destruct k as [|c k]; cbn [existsb orb andb]; [reflexivity|].
-  destruct (substring (c :: k) t); cbn [existsb andb orb]; [rewrite orb_false_r|]; reflexivity.
+  destruct (kw_found (c :: k) t); cbn [existsb andb orb]; [rewrite orb_false_r|]; reflexivity.
 Qed.
 
 (* the pattern container's rule: all matched includes are OR-ed onto the wildcard set, then all
@@ -866,13 +866,13 @@ Qed.
 (* the hit rule of a pattern field, in words: some keyword of the expression is not empty and occurs
    as a contiguous block of the query text *)
 Lemma kw_hit_iff t e :
-  kw_hit t e = true <-> exists k, In k (ac_keywords e) /\ k <> [] /\ exists pre post, t = pre ++ k ++ post.
+  kw_hit t e = true <-> exists k, In k (ac_keywords e) /\ k <> [] /\ valid_text k = true /\ exists pre post, runes t = pre ++ k ++ post.
 Proof.
   unfold kw_hit. rewrite existsb_exists. split.
   - intros (k & Hin & H). exists k. split; [exact Hin|]. unfold kw_ok in H. destruct k as [|c k]; [discriminate|].
-    split; [discriminate|]. apply AcProof.substring_spec. exact H.
+    split; [discriminate|]. apply AcProof.kw_found_spec. exact H.
   - intros (k & Hin & Hne & H). exists k. split; [exact Hin|]. unfold kw_ok. destruct k as [|c k]; [congruence|].
-    apply AcProof.substring_spec. exact H.
+    apply AcProof.kw_found_spec. exact H.
 Qed.
 
 (* the keywords of an expression, case by case *)
